@@ -152,6 +152,7 @@ func (x *runner) runC10Gen() {
 	if x.cfg.Tier == "thorough" {
 		n = 200
 	}
+	x.runC10ComplexKey()
 	var types []Ty
 	for _, d := range x.env.Decls {
 		if _, ok := gen.New[d.Name]; ok && (d.Kind == "record" || d.Kind == "union") {
@@ -175,17 +176,19 @@ func (x *runner) runC10Gen() {
 			if err != nil {
 				continue
 			}
+			hop := fmt.Sprintf("ghash %s %s %s %s", x.cfg.Module, x.env.Closure(t.Ref), t.Ref, v.Sexp())
 			ha, pan := genHash(pa)
 			if pan != "" {
-				r.OracleFail(hx.Case{Sig: "C10 generated ComputeHash panicked", Op: "ghash " + t.Ref + " " + v.Sexp(), Impl: pan})
+				r.OracleFail(hx.Case{Sig: "C10 generated ComputeHash panicked", Op: hop, Impl: pan})
 				continue
 			}
+			x.ask(hop, ha, "C10 ghash")
 			for _, o := range others {
 				pb, err := x.b.build(t, o.w)
 				if err != nil {
 					continue
 				}
-				op := fmt.Sprintf("geq %s %s %s %s", x.cfg.Module, t.Ref, v.Sexp(), o.w.Sexp())
+				op := fmt.Sprintf("geq %s %s %s %s %s", x.cfg.Module, x.env.Closure(t.Ref), t.Sexp(), v.Sexp(), o.w.Sexp())
 				want := x.env.goEqual(t, v, o.w)
 				r.OracleCases++
 				r.Count("pair:" + o.kind + fmt.Sprintf(":equal=%v", want))
@@ -197,6 +200,11 @@ func (x *runner) runC10Gen() {
 				if pan1 != "" || pan2 != "" {
 					r.OracleFail(hx.Case{Sig: "C10 generated Equals panicked", Op: op, Impl: pan1 + pan2})
 					continue
+				}
+				if ab {
+					x.ask(op, "1", "C10 geq")
+				} else {
+					x.ask(op, "0", "C10 geq")
 				}
 				if ab != want {
 					r.OracleFail(hx.Case{Sig: "C10 generated Equals disagrees with field-by-field equality (" + o.kind + ")", Op: op, Impl: fmt.Sprint(ab), Expected: fmt.Sprint(want)})
@@ -221,6 +229,86 @@ func (x *runner) runC10Gen() {
 			if eq, pan := genEquals(pa, nilPtr); pan != "" || eq {
 				r.OracleFail(hx.Case{Sig: "C10 generated Equals(nil) is true or panics", Op: "geq-nil " + t.Ref + " " + v.Sexp(), Impl: fmt.Sprint(eq, pan)})
 			}
+		}
+	}
+}
+
+// runC10ComplexKey: a generated complex key (key record Inner + params record Base): Equals looks
+// at key part AND params, ComplexKeyEquals at the key part only, and each agrees with its hash.
+func (x *runner) runC10ComplexKey() {
+	r := x.r
+	mk, ok := gen.NewComplexKey[C02ComplexKey]
+	if !ok {
+		return
+	}
+	n := 40
+	if x.cfg.Tier == "thorough" {
+		n = 600
+	}
+	build := func(key, params *V) reflect.Value {
+		p := reflect.ValueOf(mk())
+		if err := x.b.setRecord(p.Elem().FieldByName("Inner"), x.env.Find("Inner"), key); err != nil {
+			panic(err)
+		}
+		if params != nil {
+			pp := x.b.NewNamed("Base")
+			if err := x.b.Set(pp.Elem(), R("Base"), params); err != nil {
+				panic(err)
+			}
+			p.Elem().FieldByName("Params").Set(pp)
+		}
+		return p
+	}
+	call := func(a reflect.Value, m string, args ...reflect.Value) reflect.Value {
+		return a.MethodByName(m).Call(args)[0]
+	}
+	for i := 0; i < n; i++ {
+		k1 := x.env.GenValue(x.rng, R("Inner"), 1, GenOpts{OptPct: 50})
+		k2 := k1
+		if x.rng.Intn(2) == 0 {
+			k2 = x.env.GenValue(x.rng, R("Inner"), 1, GenOpts{OptPct: 50})
+		}
+		var p1, p2 *V
+		if x.rng.Intn(3) != 0 {
+			p1 = x.env.GenValue(x.rng, R("Base"), 1, GenOpts{OptPct: 50})
+		}
+		switch x.rng.Intn(3) {
+		case 0:
+			p2 = p1
+		case 1:
+			p2 = x.env.GenValue(x.rng, R("Base"), 1, GenOpts{OptPct: 50})
+		}
+		a, b := build(k1, p1), build(k2, p2)
+		keyEq := x.env.goEqual(R("Inner"), k1, k2)
+		parEq := (p1 == nil) == (p2 == nil) && (p1 == nil || x.env.goEqual(R("Base"), p1, p2))
+		op := fmt.Sprintf("ckeq %s key=%s/%s params=%v/%v", x.cfg.Module, k1.Sexp(), k2.Sexp(), p1 != nil, p2 != nil)
+		if p1 != nil {
+			op += " p1=" + p1.Sexp()
+		}
+		if p2 != nil {
+			op += " p2=" + p2.Sexp()
+		}
+		r.OracleCases++
+		r.Count(fmt.Sprintf("complex-key:keyEq=%v,paramsEq=%v", keyEq, parEq))
+		r.Distinctive(op)
+		eq := call(a, "Equals", b).Bool()
+		ckeq := call(a, "ComplexKeyEquals", b).Bool()
+		if eq != (keyEq && parEq) {
+			r.OracleFail(hx.Case{Sig: "C10 complex key Equals is not 'key part and params both equal'", Op: op, Impl: fmt.Sprint(eq), Expected: fmt.Sprint(keyEq && parEq)})
+		}
+		if ckeq != keyEq {
+			r.OracleFail(hx.Case{Sig: "C10 complex key ComplexKeyEquals is not 'key parts equal'", Op: op, Impl: fmt.Sprint(ckeq), Expected: fmt.Sprint(keyEq)})
+		}
+		if eq != call(b, "Equals", a).Bool() || ckeq != call(b, "ComplexKeyEquals", a).Bool() {
+			r.OracleFail(hx.Case{Sig: "C10 complex key equality is not symmetric", Op: op})
+		}
+		ha, hb := fmt.Sprint(call(a, "ComputeHash").Interface()), fmt.Sprint(call(b, "ComputeHash").Interface())
+		ka, kb := fmt.Sprint(call(a, "ComputeComplexKeyHash").Interface()), fmt.Sprint(call(b, "ComputeComplexKeyHash").Interface())
+		if eq && ha != hb {
+			r.OracleFail(hx.Case{Sig: "C10 Equal complex keys hash differently", Op: op, Impl: ha + " vs " + hb})
+		}
+		if ckeq && ka != kb {
+			r.OracleFail(hx.Case{Sig: "C10 ComplexKeyEqual keys have different complex-key hashes", Op: op, Impl: ka + " vs " + kb})
 		}
 	}
 }
